@@ -400,6 +400,17 @@ def corpus_cases(prop_id):
     return out
 
 
+def shorten(x, n=240):
+    """evidence samples: keep the shape of a case, cut long hex strings"""
+    if isinstance(x, str) and len(x) > n:
+        return x[:n] + '...(%d chars)' % len(x)
+    if isinstance(x, list):
+        return [shorten(y, n) for y in x[:12]] + (['...(%d items)' % len(x)] if len(x) > 12 else [])
+    if isinstance(x, dict):
+        return {k: shorten(v, n) for k, v in x.items()}
+    return x
+
+
 def trusted_base(b):
     return [
         'Coq 8.16.1 kernel (coqc, full .vo build; vm_compute used for finite table facts; no native_compute)',
@@ -412,10 +423,27 @@ def trusted_base(b):
     ]
 
 
+def coqchk(prop_id):
+    """independent re-check of the compiled property file and everything it depends on; returns the context summary"""
+    rc, out = sh(['coqchk', '-o', '-silent', '-Q', 'theories', 'CU', 'CU.props.' + prop_id], cwd=COQ, timeout=2400)
+    summary = out[out.find('CONTEXT SUMMARY'):] if 'CONTEXT SUMMARY' in out else out[-1500:]
+    items = {}
+    for m in re.finditer(r'^\* ([^:\n]+):\s*(.*?)(?=^\* |\Z)', summary, flags=re.S | re.M):
+        items[m.group(1).strip()] = ' '.join(m.group(2).split())
+    return rc == 0, items
+
+
 def run_check(prop_id, tier, seed):
     t0 = time.time()
     prop = load_prop(prop_id)
     b = build(prop_id)
+    chk = None
+    if tier == 'thorough' and b.proof_ok:
+        ok, items = coqchk(prop_id)
+        chk = {'ok': ok, 'summary': items}
+        if not ok or items.get('Axioms', '<none>') != '<none>' and not all(allowed_axiom(a.split()[0]) for a in items.get('Axioms', '').split(',') if a.strip()):
+            b.proof_ok = False
+            b.proof_msg = 'coqchk: ' + json.dumps(items)
     rng = random.Random('%s:%s' % (seed, prop_id))
     search_tier = tier if (b.proof_ok and b.driver_ok) else 'thorough'
     cases = corpus_cases(prop_id) + list(prop.gen(rng, search_tier))
@@ -465,7 +493,7 @@ def run_check(prop_id, tier, seed):
         violations += 1
     wall = time.time() - t0
     dist = {k[6:]: v for k, v in stats.items() if k.startswith('label:')}
-    samples = [c for c in cases[:3]] + ([cases[len(cases) // 2], cases[-1]] if len(cases) > 5 else [])
+    samples = [shorten(c) for c in (cases[:3] + ([cases[len(cases) // 2], cases[-1]] if len(cases) > 5 else []))]
     ev = {
         'property_id': prop_id, 'tier': tier, 'seed': int(seed), 'level': 'proof',
         'coverage': {
@@ -474,7 +502,7 @@ def run_check(prop_id, tier, seed):
             'trusted_base': trusted_base(b),
             'assumptions_reported': b.assumptions,
             'theorem_files': b.cone,
-            'proof_ok': b.proof_ok, 'translator_ok': b.gen_ok, 'driver_ok': b.driver_ok,
+            'proof_ok': b.proof_ok, 'translator_ok': b.gen_ok, 'driver_ok': b.driver_ok, 'coqchk': chk,
             'evaluations': len(cases), 'distinct_nontrivial': stats.get('nontrivial', 0),
             'rule': getattr(prop, 'RULE', ''),
             'samples': samples,
